@@ -27,6 +27,21 @@ def egressStages {M : Type} (wsa : Option (Stage M)) (plugins : List (Stage M)) 
     (extra : Stage M) : List (Stage M) :=
   wsa.toList ++ plugins ++ wsse ++ [extra]
 
+/-- the stage classes of the way out, by the names the source-flow translator gives them -/
+def egressOrder : List String := ["wsa.egress", "plugins.egress", "wsse.apply", "extra_http_headers"]
+
+/-- the stages of one class -/
+def egressClass {M : Type} (wsa : Option (Stage M)) (plugins : List (Stage M)) (wsse : List (Stage M))
+    (extra : Stage M) : String → List (Stage M)
+  | "wsa.egress" => wsa.toList
+  | "plugins.egress" => plugins
+  | "wsse.apply" => wsse
+  | "extra_http_headers" => [extra]
+  | _ => []
+
+/-- stage classes of `process_reply` between parsing and decoding -/
+def ingressOrder : List String := ["wsse.verify", "plugins.ingress"]
+
 def egress {M : Type} (wsa : Option (Stage M)) (plugins wsse : List (Stage M)) (extra : Stage M) (m : M) :=
   runStages (egressStages wsa plugins wsse extra) m
 
